@@ -130,7 +130,7 @@ CHECKS = {
     "C16": (
         "property-based metamorphic testing (proptest): the same scenario under different host drivings and asset implementations must reach identical state hashes",
         "exploration",
-        "Generated interrupt-driven programs with AY/beeper/paging/screen/keyboard/joystick/mouse/tape activity and frame-indexed input scripts are run one frame per call (reference) and again under a partition into FrameCount(n) calls, maximum-speed mode with scripted stopwatch readings, breakpoint stops with resumption, undrained audio, sound switched off, and with the initial file delivered through BufferCursor, FileAsset, GzipAsset or 1..255-byte short reads; hashes of registers, all RAM, paging, frame clock, canvas and border must agree at every common frame count; repeated runs must also agree on audio bit for bit. The tape image and (with short reads) the ROM images travel through the asset kinds too; 128K snapshots have any bank paged (long SNA layout); sound is switched on and off between frames in one driving. An enumerated phase places the fast loader's trap address on the instruction that crosses a frame end (calibrated delay, 32 paddings, both machines, five drivings). Every FrameCount(n) call of a partition must complete exactly n frames under scripted stopwatch readings far beyond or jumping across the time limit.",
+        "Generated interrupt-driven programs with AY/beeper/paging/screen/keyboard/joystick/mouse/tape activity and frame-indexed input scripts are run one frame per call (reference) and again under a partition into FrameCount(n) calls, maximum-speed mode with scripted stopwatch readings, breakpoint stops with resumption, undrained audio, sound switched off, and with the initial file delivered through BufferCursor, FileAsset, GzipAsset or 1..255-byte short reads; hashes of registers, all RAM, paging, frame clock, canvas and border must agree at every common frame count; repeated runs must also agree on audio bit for bit. The tape image and (with short reads) the ROM images travel through the asset kinds too; 128K snapshots have any bank paged (long SNA layout); sound is switched on and off between frames in one driving. An enumerated phase places the fast loader's trap address on the instruction that crosses a frame end (calibrated delay, 32 paddings, both machines, five drivings). Every FrameCount(n) call of a partition must complete exactly n frames under scripted stopwatch readings far beyond or jumping across the time limit. One driving runs the first frames in maximum-speed mode and compares the drained audio of every frame with the reference run's.",
         "Trusted: frame-counter hook for alignment; inputs applied between calls at equal frame indices.",
         "DESIGN.md section 5 (C16)",
         "emulator metamorphic driver",
